@@ -870,8 +870,18 @@ private:
 
                 firstIndex = i + 1;
             }
-            else if(m_charPredicate.isCharRefForbidden(theChar))
+            else if(m_charPredicate.isCharRefForbidden(theChar) ||
+                    XalanUnicode::charCR == theChar ||
+                    (XMLVersion == XML_VERSION_1_1 &&
+                     (XalanUnicode::charNEL == theChar ||
+                      XalanUnicode::charLSEP == theChar)))
             {
+                // These characters survive parsing only when they are
+                // written as character references (a parser turns a
+                // literal CR, and in XML 1.1 NEL and LSEP, into a line
+                // feed), and references are not recognized in comments
+                // and processing instructions: the node cannot be
+                // written.
                 throwInvalidXMLCharacterException(
                     theChar,
                     m_version,
